@@ -10,26 +10,44 @@ import (
 	"verifharness/hlib"
 )
 
-// resVal is the Go value wrapped by releasable userdata: it implements rt.UserDataResourceReleaser.
+type keyed interface{ key() int }
+
+// resVal is the Go value wrapped by RELEASABLE userdata: it implements rt.UserDataResourceReleaser.
 type resVal struct {
 	k   int
 	run *rtRun
 }
 
+func (v *resVal) key() int { return v.k }
+
 func (v *resVal) ReleaseResources(d *rt.UserData) {
 	if v.run.logging {
-		v.run.log = append(v.run.log, "r"+strconv.Itoa(v.k))
+		v.run.log = append(v.run.log, fmt.Sprintf("r%d@%d", v.k, rt.VerifGCContextDepth(v.run.r)))
+	}
+}
+
+// plainVal is wrapped by userdata that has nothing to release.
+type plainVal struct{ k int }
+
+func (v *plainVal) key() int { return v.k }
+
+type warner struct{ n int }
+
+func (w *warner) Warn(msgs ...string) {
+	if strings.HasPrefix(strings.Join(msgs, ""), "error in finalizer") {
+		w.n++
 	}
 }
 
 type rtRun struct {
 	c       *rt.VerifGCCollector
 	r       *rt.Runtime
-	gcMeta  *rt.Table // metatable with __gc
-	plain   *rt.Table // metatable without __gc
+	metas   [4]*rt.Table // 0: none (nil), 1: no __gc, 2: __gc, 3: __gc that raises
 	orig    map[int]rt.Value
 	clone   map[int]rt.Value
+	relsbl  map[int]bool
 	log     []string
+	warn    *warner
 	logging bool
 	outs    []string
 	dead    bool
@@ -37,27 +55,45 @@ type rtRun struct {
 	noop    rt.Value
 }
 
+var errGc = errors.New("finaliser raises")
+
 func newRtRun() *rtRun {
-	x := &rtRun{c: rt.VerifGCInstallCollector(), orig: map[int]rt.Value{}, clone: map[int]rt.Value{}, logging: true}
+	x := &rtRun{c: rt.VerifGCInstallCollector(), orig: map[int]rt.Value{}, clone: map[int]rt.Value{},
+		relsbl: map[int]bool{}, logging: true, warn: &warner{}}
 	x.r = rt.New(nil)
-	x.gcMeta = rt.NewTable()
-	x.plain = rt.NewTable()
-	gc := rt.NewGoFunction(func(t *rt.Thread, c *rt.GoCont) (rt.Cont, error) {
-		v := c.Arg(0)
-		k := -1
-		if tbl, ok := v.TryTable(); ok {
-			k = int(tbl.Get(rt.StringValue("k")).AsInt())
-		} else if u, ok := v.TryUserData(); ok {
-			k = u.Value().(*resVal).k
-		}
-		if x.logging {
-			x.log = append(x.log, "f"+strconv.Itoa(k))
-			x.clone[k] = v
-		}
-		return c.Next(), nil
-	}, "gc", 1, false)
-	rt.SolemnlyDeclareCompliance(rt.ComplyCpuSafe|rt.ComplyMemSafe|rt.ComplyTimeSafe|rt.ComplyIoSafe, gc)
-	x.gcMeta.Set(rt.StringValue("__gc"), rt.FunctionValue(gc))
+	x.r.SetWarner(x.warn)
+	mkgc := func(raises bool) *rt.GoFunction {
+		gc := rt.NewGoFunction(func(t *rt.Thread, c *rt.GoCont) (rt.Cont, error) {
+			v := c.Arg(0)
+			k := -1
+			if tbl, ok := v.TryTable(); ok {
+				k = int(tbl.Get(rt.StringValue("k")).AsInt())
+			} else if u, ok := v.TryUserData(); ok {
+				k = u.Value().(keyed).key()
+			}
+			// one finaliser = 1000 CPU units, charged to whatever context it runs in
+			t.RequireCPU(1000)
+			if x.logging {
+				s := fmt.Sprintf("f%d@%d", k, rt.VerifGCContextDepth(t.Runtime))
+				if raises {
+					s += "!"
+				}
+				x.log = append(x.log, s)
+				x.clone[k] = v
+			}
+			if raises {
+				return nil, errGc
+			}
+			return c.Next(), nil
+		}, "gc", 1, false)
+		rt.SolemnlyDeclareCompliance(rt.ComplyCpuSafe|rt.ComplyMemSafe|rt.ComplyTimeSafe|rt.ComplyIoSafe, gc)
+		return gc
+	}
+	x.metas[1] = rt.NewTable()
+	x.metas[2] = rt.NewTable()
+	x.metas[2].Set(rt.StringValue("__gc"), rt.FunctionValue(mkgc(false)))
+	x.metas[3] = rt.NewTable()
+	x.metas[3].Set(rt.StringValue("__gc"), rt.FunctionValue(mkgc(true)))
 	noop := rt.NewGoFunction(func(t *rt.Thread, c *rt.GoCont) (rt.Cont, error) {
 		return c.Next(), nil
 	}, "noop", 0, false)
@@ -89,14 +125,49 @@ func (x *rtRun) value(name string) (rt.Value, bool) {
 	return v, ok
 }
 
-func (x *rtRun) meta(flags int) *rt.Table {
-	if flags&1 != 0 {
-		return x.gcMeta
+// parseDef: cc.<lims>.<pol> / pu.<lims>.<pol>, lims ⊆ "cmt", pol ∈ d|s|i
+func parseDef(op string) (rt.RuntimeContextDef, bool) {
+	parts := strings.Split(op, ".")
+	def := rt.RuntimeContextDef{}
+	if len(parts) != 3 || len(parts[2]) != 1 {
+		return def, false
 	}
-	return x.plain
+	for _, c := range parts[1] {
+		switch c {
+		case 'c':
+			def.HardLimits.Cpu = 1 << 40
+		case 'm':
+			def.HardLimits.Memory = 1 << 40
+		case 't':
+			def.HardLimits.Millis = 1 << 30
+		default:
+			return def, false
+		}
+	}
+	switch parts[2] {
+	case "d":
+		def.GCPolicy = rt.DefaultGCPolicy
+	case "s":
+		def.GCPolicy = rt.ShareGCPolicy
+	case "i":
+		def.GCPolicy = rt.IsolateGCPolicy
+	default:
+		return def, false
+	}
+	return def, true
 }
 
 var errBody = errors.New("body error")
+
+func (x *rtRun) recovering(f func()) (panicked bool) {
+	defer func() {
+		if recover() != nil {
+			panicked = true
+		}
+	}()
+	f()
+	return false
+}
 
 // exec runs ops[i:] until the end of the history or the end marker of the current CallContext;
 // returns the index after the last op consumed and the end marker seen ("" at top level).
@@ -111,6 +182,7 @@ func (x *rtRun) exec(ops []string, i int, depth int) (int, string, bool) {
 			return i, "dead", true
 		}
 		mark := len(x.log)
+		warns := x.warn.n
 		out := ""
 		panicked := false
 		switch {
@@ -119,16 +191,16 @@ func (x *rtRun) exec(ops []string, i int, depth int) (int, string, bool) {
 				return i, "", false
 			}
 			return i, op, true
-		case op == "cc" || op == "cs":
-			def := rt.RuntimeContextDef{}
-			if op == "cc" {
-				def.HardLimits.Cpu = 1 << 40
+		case strings.HasPrefix(op, "cc."):
+			def, ok := parseDef(op)
+			if !ok {
+				return i, "", false
 			}
 			x.outs = append(x.outs, "-")
 			slot := -1
-			end, ok := i+1, true
+			end := i + 1
 			t := x.r.MainThread()
-			_, _ = t.CallContext(def, func() error {
+			ctx, _ := t.CallContext(def, func() error {
 				var marker string
 				end, marker, ok = x.exec(ops, i+1, depth+1)
 				if marker == "dead" {
@@ -140,6 +212,7 @@ func (x *rtRun) exec(ops []string, i int, depth int) (int, string, bool) {
 				}
 				// the end marker's output slot: everything logged from here to the return of CallContext
 				mark = len(x.log)
+				warns = x.warn.n
 				x.outs = append(x.outs, "")
 				slot = len(x.outs) - 1
 				switch marker {
@@ -154,7 +227,10 @@ func (x *rtRun) exec(ops []string, i int, depth int) (int, string, bool) {
 				return end, "", false
 			}
 			if slot >= 0 {
-				x.outs[slot] = x.delta(mark)
+				x.outs[slot] = x.delta(mark, warns) + "~" + strconv.FormatUint(ctx.UsedResources().Cpu/1000, 10)
+				if x.c.DoubleSets() > 0 {
+					x.outs[slot] = "X"
+				}
 			}
 			if x.c.DoubleSets() > 0 {
 				x.dead = true
@@ -163,25 +239,13 @@ func (x *rtRun) exec(ops []string, i int, depth int) (int, string, bool) {
 			continue
 		case op == "st":
 			term := rt.NewTerminationWith(nil, 0, false)
-			func() {
-				defer func() {
-					if recover() != nil {
-						panicked = true
-					}
-				}()
-				_ = rt.Call(x.r.MainThread(), x.noop, nil, term)
-			}()
-		case op == "pu":
-			if depth != 0 {
+			panicked = x.recovering(func() { _ = rt.Call(x.r.MainThread(), x.noop, nil, term) })
+		case strings.HasPrefix(op, "pu."):
+			def, ok := parseDef(op)
+			if !ok || depth != 0 {
 				return i, "", false
 			}
-			x.r.PushContext(rt.RuntimeContextDef{HardLimits: rt.RuntimeResources{Cpu: 1 << 40}})
-		case op == "ps":
-			// a context that SHARES its parent's pool: Close then extracts from the same pool once per context
-			if depth != 0 {
-				return i, "", false
-			}
-			x.r.PushContext(rt.RuntimeContextDef{})
+			x.r.PushContext(def)
 		case op == "cl":
 			if depth != 0 {
 				return i, "", false
@@ -195,49 +259,45 @@ func (x *rtRun) exec(ops []string, i int, depth int) (int, string, bool) {
 			}
 			head, arg := op[:j], op[j+1:]
 			switch {
-			case len(head) == 3 && head[:2] == "mk":
-				flags := int(head[2] - '0')
+			case strings.HasPrefix(head, "mk"):
 				k, err := strconv.Atoi(arg)
 				if err != nil {
 					return i, "", false
 				}
-				func() {
-					defer func() {
-						if recover() != nil {
-							panicked = true
-						}
-					}()
-					if flags == 1 {
-						tbl := rt.NewTable()
-						tbl.Set(rt.StringValue("k"), rt.IntValue(int64(k)))
-						x.orig[k] = rt.TableValue(tbl)
-						x.r.SetRawMetatable(x.orig[k], x.gcMeta)
-					} else {
-						rv := &resVal{k: k, run: x}
+				switch {
+				case len(head) == 4 && head[2] == 'T' && head[3] >= '1' && head[3] <= '3':
+					meta := x.metas[head[3]-'0']
+					tbl := rt.NewTable()
+					tbl.Set(rt.StringValue("k"), rt.IntValue(int64(k)))
+					x.orig[k] = rt.TableValue(tbl)
+					panicked = x.recovering(func() { x.r.SetRawMetatable(x.orig[k], meta) })
+				case len(head) == 5 && head[2] == 'U' && (head[3] == '0' || head[3] == '1') && head[4] >= '0' && head[4] <= '3':
+					meta := x.metas[head[4]-'0']
+					var wrapped interface{} = &plainVal{k: k}
+					if head[3] == '1' {
+						wrapped = &resVal{k: k, run: x}
+						x.relsbl[k] = true
+					}
+					panicked = x.recovering(func() {
 						if x.closed {
 							// Mark will panic on the released pool: keep hold of the object it registered
-							x.orig[k] = rt.UserDataValue(rt.NewUserData(rv, nil))
-							x.r.SetRawMetatable(x.orig[k], x.meta(flags))
+							x.orig[k] = rt.UserDataValue(rt.NewUserData(wrapped, nil))
+							x.r.SetRawMetatable(x.orig[k], meta)
 						} else {
-							x.orig[k] = x.r.NewUserDataValue(rv, x.meta(flags))
+							x.orig[k] = x.r.NewUserDataValue(wrapped, meta)
 						}
-					}
-				}()
-			case len(head) == 3 && head[:2] == "rm":
-				flags := int(head[2] - '0')
+					})
+				default:
+					return i, "", false
+				}
+			case len(head) == 3 && head[:2] == "rm" && head[2] >= '1' && head[2] <= '3':
 				v, ok := x.value(arg)
 				if !ok {
 					out = "n" // no such clone yet: nothing to do
 					break
 				}
-				func() {
-					defer func() {
-						if recover() != nil {
-							panicked = true
-						}
-					}()
-					x.r.SetRawMetatable(v, x.meta(flags))
-				}()
+				meta := x.metas[head[2]-'0']
+				panicked = x.recovering(func() { x.r.SetRawMetatable(v, meta) })
 			case head == "fi":
 				v, ok := x.value(arg)
 				if !ok {
@@ -255,7 +315,7 @@ func (x *rtRun) exec(ops []string, i int, depth int) (int, string, bool) {
 			}
 		}
 		if out == "" {
-			out = x.delta(mark)
+			out = x.delta(mark, warns)
 		}
 		if panicked {
 			out = "panic"
@@ -273,11 +333,15 @@ func (x *rtRun) exec(ops []string, i int, depth int) (int, string, bool) {
 	return i, "", depth == 0
 }
 
-func (x *rtRun) delta(from int) string {
-	if len(x.log) == from {
-		return "-"
+func (x *rtRun) delta(from int, warnsBefore int) string {
+	s := "-"
+	if len(x.log) > from {
+		s = strings.Join(x.log[from:], ",")
 	}
-	return strings.Join(x.log[from:], ",")
+	if x.warn.n > warnsBefore {
+		s += "|w" + strconv.Itoa(x.warn.n-warnsBefore)
+	}
+	return s
 }
 
 func runRtHistory(ops []string) string {
@@ -300,6 +364,18 @@ func runRtHistory(ops []string) string {
 	return "rt " + strings.Join(ops, " ") + " = " + res
 }
 
+var allDefs = func() []string {
+	var out []string
+	for _, lims := range []string{"", "c", "m", "t", "cm", "ct", "mt", "cmt"} {
+		for _, pol := range []string{"d", "s", "i"} {
+			out = append(out, lims+"."+pol)
+		}
+	}
+	return out
+}()
+
+var valueKinds = []string{"T1", "T2", "T2", "T3", "U00", "U01", "U02", "U03", "U10", "U10", "U11", "U12", "U12", "U13"}
+
 // genRt generates a well-bracketed random runtime history.  Most histories respect the environment
 // assumption (a Go finaliser fires only for an object the program has dropped, `dr`; only objects
 // still held are re-marked); `wild` ones do not (they are compared with the model but not judged
@@ -308,7 +384,7 @@ func genRt(rng *hlib.Rng, maxLen int) []string {
 	var ops []string
 	nextK := 1
 	type val struct {
-		k, flags            int
+		k                   int
 		origHeld, cloneHeld bool
 	}
 	var vals []*val
@@ -319,10 +395,9 @@ func genRt(rng *hlib.Rng, maxLen int) []string {
 	for len(ops) < n {
 		c := rng.Below(100)
 		switch {
-		case c < 20 && nextK <= 6:
-			fl := 1 + rng.Below(3)
-			ops = append(ops, fmt.Sprintf("mk%d:%d", fl, nextK))
-			vals = append(vals, &val{k: nextK, flags: fl, origHeld: true, cloneHeld: true})
+		case c < 22 && nextK <= 6:
+			ops = append(ops, fmt.Sprintf("mk%s:%d", valueKinds[rng.Below(len(valueKinds))], nextK))
+			vals = append(vals, &val{k: nextK, origHeld: true, cloneHeld: true})
 			nextK++
 		case c < 44 && len(vals) > 0:
 			// drop and let Go collect
@@ -346,7 +421,7 @@ func genRt(rng *hlib.Rng, maxLen int) []string {
 			if who == "o" {
 				v.cloneHeld = true // the finaliser will hand out a new clone
 			}
-		case c < 54 && len(vals) > 0:
+		case c < 53 && len(vals) > 0:
 			v := vals[rng.Below(len(vals))]
 			who := "o"
 			if rng.Chance(40) {
@@ -355,26 +430,17 @@ func genRt(rng *hlib.Rng, maxLen int) []string {
 			if !wild && ((who == "o" && !v.origHeld) || (who == "c" && !v.cloneHeld)) {
 				break
 			}
-			ops = append(ops, fmt.Sprintf("rm%d:%d%s", v.flags, v.k, who))
-		case c < 68:
+			ops = append(ops, fmt.Sprintf("rm%d:%d%s", 1+rng.Below(3), v.k, who))
+		case c < 66:
 			ops = append(ops, "st")
 		case c < 78 && len(stack) < 3 && !closed:
-			if rng.Chance(75) {
-				ops = append(ops, "cc")
-				stack = append(stack, "cc")
-			} else {
-				ops = append(ops, "cs")
-				stack = append(stack, "cs")
-			}
+			ops = append(ops, "cc."+allDefs[rng.Below(len(allDefs))])
+			stack = append(stack, "cc")
 		case c < 90 && len(stack) > 0:
 			ops = append(ops, []string{"ed", "ee", "ek"}[rng.Below(3)])
 			stack = stack[:len(stack)-1]
 		case c < 93 && len(stack) == 0 && !closed:
-			if rng.Chance(70) {
-				ops = append(ops, "pu")
-			} else {
-				ops = append(ops, "ps")
-			}
+			ops = append(ops, "pu."+allDefs[rng.Below(len(allDefs))])
 		case c < 100 && len(stack) == 0 && !closed && len(ops) > 2:
 			ops = append(ops, "cl")
 			closed = true
@@ -392,21 +458,41 @@ func genRt(rng *hlib.Rng, maxLen int) []string {
 
 func rtLeg(thorough bool) {
 	for _, h := range [][]string{
-		{"mk1:1", "mk3:2", "mk2:3", "cl"},
-		{"mk1:1", "dr:1o", "fi:1o", "cl"},             // Go finaliser fired, Close before the next step
-		{"mk1:1", "dr:1o", "fi:1o", "st", "cl"},       // same with a step in between
-		{"cc", "mk1:1", "dr:1o", "fi:1o", "ed", "cl"}, // the same inside an isolating CallContext
-		{"cc", "mk3:1", "mk1:2", "ek", "st", "cl"},    // killed: released, not finalised
-		{"cc", "mk3:1", "mk1:2", "ee", "cl"},          // error: finalised and released
-		{"mk1:1", "cc", "rm1:1o", "ed", "cl"},         // re-mark in another context's pool
-		{"cc", "mk1:1", "ed", "rm1:1o", "cl"},         // value escapes its context and is re-marked outside
-		{"mk3:1", "mk3:2", "rm3:1o", "cl"},            // re-mark moves to the front of the close order
-		{"mk3:1", "dr:1o", "fi:1o", "st", "rm3:1c", "dr:1c", "fi:1c", "st", "cl"},
-		{"pu", "mk3:1", "pu", "mk1:2", "cs", "mk3:3", "ed", "cl"},
-		{"mk1:1", "ps", "mk3:2", "ps", "cl"}, // Close over contexts sharing the root pool
+		{"mkT2:1", "mkU12:2", "mkU11:3", "cl"},
+		{"mkT2:1", "dr:1o", "fi:1o", "cl"},       // Go finaliser fired, Close before the next step
+		{"mkT2:1", "dr:1o", "fi:1o", "st", "cl"}, // same with a step in between
+		{"cc.c.d", "mkT2:1", "dr:1o", "fi:1o", "ed", "cl"},
+		{"cc.c.d", "mkU12:1", "mkT2:2", "ek", "st", "cl"}, // killed: released, not finalised
+		{"cc.c.d", "mkU12:1", "mkT2:2", "ee", "cl"},       // error: finalised and released
+		{"mkT2:1", "cc.c.d", "rm2:1o", "ed", "cl"},        // re-mark in another context's pool
+		{"cc.c.d", "mkT2:1", "ed", "rm2:1o", "cl"},        // value escapes its context and is re-marked outside
+		{"mkU12:1", "mkU12:2", "rm2:1o", "cl"},            // re-mark moves to the front of the close order
+		{"mkU12:1", "dr:1o", "fi:1o", "st", "rm2:1c", "dr:1c", "fi:1c", "st", "cl"},
+		{"pu.c.d", "mkU12:1", "pu.m.d", "mkT2:2", "cc..d", "mkU12:3", "ed", "cl"},
+		{"mkT2:1", "pu..d", "mkU12:2", "pu..s", "cl"}, // Close over contexts sharing the root pool
 		// finalised at its context's end, the finaliser's clone re-marked and dropped, original still held
-		{"cc", "mk1:1", "ed", "rm1:1c", "dr:1c", "fi:1c", "st", "cl"},
-		{"mk1:1", "cl", "mk1:2"}, // use after Close
+		{"cc.c.d", "mkT2:1", "ed", "rm2:1c", "dr:1c", "fi:1c", "st", "cl"},
+		{"mkT2:1", "cl", "mkT2:2"}, // use after Close
+		// every way of getting an own pool, and the ways of not getting one
+		{"cc.m.d", "mkT2:1", "mkU12:2", "ed", "cl"},
+		{"cc.t.d", "mkT2:1", "mkU12:2", "ee", "cl"},
+		{"cc..i", "mkT2:1", "mkU12:2", "ed", "cl"},
+		{"cc.m.s", "mkT2:1", "mkU12:2", "ed", "cl"},
+		{"cc..d", "mkT2:1", "mkU12:2", "ed", "st", "cl"},
+		{"cc..s", "mkT2:1", "mkU12:2", "ek", "cl"},
+		{"cc.c.d", "cc.m.d", "mkT2:1", "ed", "mkT2:2", "ed", "cl"},
+		// releasable userdata whatever its metatable; non-releasable userdata; tables without __gc
+		{"mkU10:1", "mkU11:2", "mkU12:3", "mkU00:4", "mkU02:5", "mkT1:6", "cl"},
+		{"cc.c.d", "mkU10:1", "ed", "cc.m.d", "mkU10:2", "ee", "cc.t.d", "mkU10:3", "ek", "cl"},
+		{"mkU10:1", "dr:1o", "fi:1o", "st", "cl"},
+		{"mkU12:1", "rm1:1o", "cl"}, // a metatable without __gc cancels the finaliser, not the release
+		// finalisers that raise: first, middle, last of a batch; at a step, at a context's end, at Close
+		{"mkT3:1", "mkT2:2", "mkT2:3", "cl"},
+		{"mkT2:1", "mkT3:2", "mkT2:3", "cl"},
+		{"mkT2:1", "mkT2:2", "mkT3:3", "cl"},
+		{"cc.c.d", "mkT2:1", "mkU13:2", "mkT2:3", "ed", "cl"},
+		{"mkT2:1", "mkT3:2", "mkT2:3", "dr:1o", "fi:1o", "dr:2o", "fi:2o", "dr:3o", "fi:3o", "st", "cl"},
+		{"mkT3:1", "rm2:1o", "mkT2:2", "rm3:2o", "cl"},
 	} {
 		hlib.Emit(runRtHistory(h))
 	}
